@@ -927,6 +927,29 @@ struct World {
                 A.stack = op.stack;
                 A.obj = mem;
                 A.model = convert_model(dd, sd, B.model, false);
+                {
+                    // Spare array elements of the source: a conversion that re-lays the lattice
+                    // out may size the new storage exactly (the pinned library does) or, where
+                    // the layouts are cell-for-cell identical, adopt or copy the source's
+                    // storage as it is, spare elements included. Both keep every promise C05
+                    // makes; the model follows whichever the field reports.
+                    size_t src_count = array_count(sd, B.model), need = storage_len(dd, B.model.ext);
+                    int al = dd.depth - 1;
+                    if (src_count > need && al >= 0 && (dd.layers[al].kind == LK_ARRAY || dd.layers[al].kind == LK_CUDA) && !same_storage_type(dd, sd)) {
+                        ModelField got;
+                        got.stack = op.stack;
+                        o.read_all(mem, got);
+                        if (al < (int)got.cfg.size() && got.cfg[al].size() == 8) {
+                            uint64_t n = 0;
+                            for (int i = 0; i < 8; ++i)
+                                n |= (uint64_t)got.cfg[al][i] << (8 * i);
+                            if (n == src_count) {
+                                A.model.cfg[al] = got.cfg[al];
+                                cnt.inc("observed.conversion_kept_the_spare_storage_of_its_source");
+                            }
+                        }
+                    }
+                }
                 if (mv) {
                     B.state = S_INDET;
                     B.model = ModelField();
